@@ -1,14 +1,714 @@
 package vsched
 
-import "unsafe"
+import (
+	"runtime"
+	"time"
+	"unsafe"
+)
 
-// Stubs: replaced by the real scheduler (E4).
+// The cooperative scheduler. Harness threads are goroutines of which exactly
+// one runs at a time. The running thread calls into the scheduler before every
+// visible operation (a "point"); there the next thread to run is decided from
+// a choice list (replay) or by the default rule (keep running the current
+// thread if its pending operation is enabled, else the lowest enabled id).
+//
+// Everything in this file is //go:norace and uses no maps and no real
+// synchronisation: the hand-off between threads is a spin on a plain word, so
+// the race detector sees none of it and the happens-before edges it does see
+// are exactly the ones the program under test creates.
 
-func Visible(k Kind, a ...Acc)          {}
-func MutexLock(p unsafe.Pointer)        {}
-func MutexUnlock(p unsafe.Pointer)      {}
-func RWLock(p unsafe.Pointer)           {}
-func RWUnlock(p unsafe.Pointer)         {}
-func RWRLock(p unsafe.Pointer)          {}
-func RWRUnlock(p unsafe.Pointer)        {}
-func Ptr(p unsafe.Pointer) uint64       { return ptr(p) }
+const maxThreads = 8
+const maxObjs = 256
+const maxAcc = 4
+const maxSel = 4
+
+type objKind uint8
+
+const (
+	oPlain objKind = iota
+	oMutex
+	oRW
+	oChan
+)
+
+type object struct {
+	id   uint64
+	kind objKind
+	// mutex / rw
+	held    bool // mutex held or rw write-held
+	readers int
+	waitW   int // writers that announced Lock and wait
+	// chan
+	clen, ccap int
+	closed     bool
+	// happens-before hashing
+	lastW uint64
+	reads uint64
+}
+
+type selCase struct {
+	obj  uint64          // vchan object (0 = real channel)
+	real <-chan struct{} // real Done-like channel polled without blocking
+}
+
+type op struct {
+	kind   Kind
+	sub    uint8 // lock phases, chan op kinds
+	obj    uint64
+	accs   [maxAcc]Acc
+	nacc   int
+	sel    [maxSel]selCase
+	nsel   int
+	chosen int // select: ready case picked
+	label  string
+}
+
+const (
+	subNone uint8 = iota
+	subLockReq
+	subLockAcq
+	subSend
+	subRecv
+	subClose
+)
+
+type tstate uint8
+
+const (
+	tNew tstate = iota
+	tRunning
+	tPending
+	tDone
+)
+
+type thread struct {
+	state   tstate
+	op      op
+	hash    uint64 // hash of the thread's last event
+	nevents int
+}
+
+// Decision is one scheduling decision of an execution.
+type Decision struct {
+	Enabled  [maxThreads]int8 // thread ids in canonical order
+	N        int
+	Chosen   int    // index into Enabled
+	State    uint64 // identity of the happens-before prefix (plus running thread)
+	Running  int    // thread that was running when the decision was taken (-1: none)
+	CurStill bool   // the running thread was itself enabled (switching away is a preemption)
+	OpKind   Kind   // pending operation of the chosen thread
+}
+
+// Event is one entry of the call history.
+type HistEvent struct {
+	Thread int
+	Call   int  // index of the call within the thread
+	Ret    bool // false: invocation, true: response
+	Step   int  // global step counter
+}
+
+type sched struct {
+	threads  [maxThreads]thread
+	n        int
+	objs     [maxObjs]object
+	nobj     int
+	cur      int
+	prefix   []int
+	dec      []Decision
+	hist     []HistEvent
+	step     int
+	deadlock bool
+	diverged string
+	overflow bool
+	done     bool
+	ops      int
+}
+
+var s sched
+
+// turn: id of the thread allowed to run, -1 = the main goroutine.
+var turn int32 = -1
+var abort bool
+
+//go:norace
+func mix(h, v uint64) uint64 {
+	h ^= v + 0x9E3779B97F4A7C15 + (h << 6) + (h >> 2)
+	h *= 0xff51afd7ed558ccd
+	h ^= h >> 33
+	return h
+}
+
+//go:norace
+func findObj(id uint64, kind objKind) *object {
+	for i := 0; i < s.nobj; i++ {
+		if s.objs[i].id == id {
+			return &s.objs[i]
+		}
+	}
+	if s.nobj >= maxObjs {
+		s.overflow = true
+		return &s.objs[maxObjs-1]
+	}
+	o := &s.objs[s.nobj]
+	s.nobj++
+	*o = object{id: id, kind: kind}
+	return o
+}
+
+// ---------------------------------------------------------------- control
+
+// Begin prepares an execution with n threads that replays prefix.
+//
+//go:norace
+func Begin(n int, prefix []int) {
+	s = sched{n: n, cur: -1, prefix: prefix}
+	s.dec = make([]Decision, 0, 256)
+	s.hist = make([]HistEvent, 0, 32)
+	turn = -1
+	abort = false
+	Active = true
+}
+
+// Enter is called by thread id as its first action (it parks until scheduled).
+//
+//go:norace
+func Enter(id int) {
+	waitTurn(int32(id))
+}
+
+// Exit is called by thread id when its body has returned.
+//
+//go:norace
+func Exit(id int) {
+	s.threads[id].state = tDone
+	schedule()
+}
+
+// Run is called by the main goroutine after the threads have been started:
+// it takes the first decision and returns when all threads are done, on
+// deadlock, or when guard expires (hung=true).
+//
+//go:norace
+func Run(guard time.Duration) (hung bool) {
+	for i := 0; i < s.n; i++ {
+		s.threads[i].state = tPending
+		s.threads[i].op = op{kind: KUser, label: "start"}
+	}
+	schedule()
+	start := time.Now()
+	for spins := 0; turn != -1; spins++ {
+		runtime.Gosched()
+		if spins&1023 == 1023 && time.Since(start) > guard {
+			abort = true
+			Active = false
+			return true
+		}
+	}
+	Active = false
+	return false
+}
+
+// Abort releases parked threads (they exit) after a deadlock.
+//
+//go:norace
+func Abort() {
+	abort = true
+	Active = false
+}
+
+//go:norace
+func waitTurn(id int32) {
+	for turn != id {
+		if abort {
+			runtime.Goexit()
+		}
+		runtime.Gosched()
+	}
+}
+
+// Results of the last execution.
+//
+//go:norace
+func Decisions() []Decision { return s.dec }
+
+//go:norace
+func History() []HistEvent { return s.hist }
+
+//go:norace
+func Deadlocked() (bool, string) {
+	if !s.deadlock {
+		return false, ""
+	}
+	d := ""
+	for i := 0; i < s.n; i++ {
+		if s.threads[i].state == tPending {
+			d += "T" + string(rune('0'+i)) + " blocked in " + opName(&s.threads[i].op) + "; "
+		}
+	}
+	return true, d
+}
+
+//go:norace
+func Diverged() string { return s.diverged }
+
+//go:norace
+func Overflow() bool { return s.overflow }
+
+//go:norace
+func Ops() int { return s.ops }
+
+//go:norace
+func opName(o *op) string {
+	switch o.kind {
+	case KLock:
+		if o.sub == subLockReq {
+			return "RWMutex.Lock (announce)"
+		}
+		if o.sub == subLockAcq {
+			return "RWMutex.Lock (acquire)"
+		}
+		return "Mutex.Lock"
+	case KRLock:
+		return "RWMutex.RLock"
+	case KLoad:
+		return "atomic load"
+	case KStore:
+		return "atomic store"
+	case KFS:
+		return "file-system call"
+	case KChan:
+		switch o.sub {
+		case subSend:
+			return "channel send"
+		case subRecv:
+			return "channel receive"
+		default:
+			return "channel close"
+		}
+	case KSelect:
+		return "select"
+	case KCall:
+		return "call " + o.label
+	default:
+		return o.label
+	}
+}
+
+// ---------------------------------------------------------------- enabledness
+
+//go:norace
+func pollReal(c <-chan struct{}) bool {
+	select {
+	case <-c:
+		return true
+	default:
+		return false
+	}
+}
+
+//go:norace
+func enabled(t *thread) bool {
+	o := &t.op
+	switch o.kind {
+	case KLock:
+		ob := findObj(o.obj, oMutex)
+		switch o.sub {
+		case subLockReq:
+			return true
+		case subLockAcq:
+			return !ob.held && ob.readers == 0
+		default:
+			return !ob.held
+		}
+	case KRLock:
+		ob := findObj(o.obj, oRW)
+		return !ob.held && ob.waitW == 0
+	case KChan:
+		ob := findObj(o.obj, oChan)
+		switch o.sub {
+		case subSend:
+			return ob.closed || ob.clen < ob.ccap
+		case subRecv:
+			return ob.closed || ob.clen > 0
+		default:
+			return true
+		}
+	case KSelect:
+		for i := 0; i < o.nsel; i++ {
+			c := &o.sel[i]
+			if c.obj == 0 {
+				if pollReal(c.real) {
+					return true
+				}
+			} else {
+				ob := findObj(c.obj, oChan)
+				if ob.closed || ob.clen > 0 {
+					return true
+				}
+			}
+		}
+		return false
+	default:
+		return true
+	}
+}
+
+// ---------------------------------------------------------------- scheduling
+
+//go:norace
+func stateHash() uint64 {
+	h := uint64(0x1234567)
+	for i := 0; i < s.n; i++ {
+		t := &s.threads[i]
+		h = mix(h, t.hash)
+		h = mix(h, uint64(t.state))
+	}
+	h = mix(h, uint64(s.cur+1))
+	return h
+}
+
+// schedule is run by the thread that just parked (or finished, or by main at
+// the start): it picks the next thread and hands the turn over.
+//
+//go:norace
+func schedule() {
+	var d Decision
+	d.Running = s.cur
+	// canonical order: the running thread first if still enabled, then ascending ids
+	if s.cur >= 0 && s.threads[s.cur].state == tPending && enabled(&s.threads[s.cur]) {
+		d.Enabled[d.N] = int8(s.cur)
+		d.N++
+		d.CurStill = true
+	}
+	allDone := true
+	for i := 0; i < s.n; i++ {
+		t := &s.threads[i]
+		if t.state != tDone {
+			allDone = false
+		}
+		if i == s.cur && d.CurStill {
+			continue
+		}
+		if t.state == tPending && enabled(t) {
+			d.Enabled[d.N] = int8(i)
+			d.N++
+		}
+	}
+	if d.N == 0 {
+		if !allDone {
+			s.deadlock = true
+		}
+		s.done = true
+		s.cur = -1
+		turn = -1
+		return
+	}
+	d.State = stateHash()
+	k := len(s.dec)
+	if k < len(s.prefix) {
+		c := s.prefix[k]
+		if c < 0 || c >= d.N {
+			s.diverged = "replayed choice out of range"
+			c = 0
+		}
+		d.Chosen = c
+	}
+	next := int(d.Enabled[d.Chosen])
+	d.OpKind = s.threads[next].op.kind
+	s.dec = append(s.dec, d)
+	me := s.cur
+	s.cur = next
+	s.threads[next].state = tRunning
+	execute(next)
+	turn = int32(next)
+	_ = me
+}
+
+// execute applies the effect of the chosen thread's pending operation to the
+// object model and records its happens-before event.
+//
+//go:norace
+func execute(id int) {
+	t := &s.threads[id]
+	o := &t.op
+	s.ops++
+	switch o.kind {
+	case KLock:
+		switch o.sub {
+		case subLockReq:
+			findObj(o.obj, oRW).waitW++
+		case subLockAcq:
+			ob := findObj(o.obj, oRW)
+			ob.waitW--
+			ob.held = true
+		default:
+			findObj(o.obj, oMutex).held = true
+		}
+	case KRLock:
+		findObj(o.obj, oRW).readers++
+	case KChan:
+		ob := findObj(o.obj, oChan)
+		switch o.sub {
+		case subSend:
+			if !ob.closed {
+				ob.clen++
+			}
+		case subRecv:
+			if ob.clen > 0 {
+				ob.clen--
+			}
+		case subClose:
+			ob.closed = true
+		}
+	case KSelect:
+		o.chosen = -1
+		for i := 0; i < o.nsel; i++ {
+			c := &o.sel[i]
+			if c.obj == 0 {
+				if pollReal(c.real) {
+					o.chosen = i
+					break
+				}
+			} else {
+				ob := findObj(c.obj, oChan)
+				if ob.closed || ob.clen > 0 {
+					if ob.clen > 0 {
+						ob.clen--
+					}
+					o.chosen = i
+					break
+				}
+			}
+		}
+	case KCall:
+		s.hist = append(s.hist, HistEvent{Thread: id, Call: int(o.obj), Step: s.step})
+	}
+	s.step++
+	record(t, o)
+}
+
+// record computes the event hash: thread, kind, position in the thread, the
+// thread's previous event and the last conflicting events on every object the
+// operation touches (two reads of the same object commute).
+//
+//go:norace
+func record(t *thread, o *op) {
+	h := mix(uint64(o.kind)<<8|uint64(o.sub), uint64(t.nevents))
+	h = mix(h, t.hash)
+	if o.kind == KSelect {
+		h = mix(h, uint64(o.chosen+1))
+	}
+	for i := 0; i < o.nacc; i++ {
+		a := o.accs[i]
+		ob := findObj(a.Obj, oPlain)
+		if a.W {
+			h = mix(h, ob.lastW)
+			h = mix(h, ob.reads)
+		} else {
+			h = mix(h, ob.lastW)
+		}
+	}
+	for i := 0; i < o.nacc; i++ {
+		a := o.accs[i]
+		ob := findObj(a.Obj, oPlain)
+		if a.W {
+			ob.lastW = h
+			ob.reads = 0
+		} else {
+			ob.reads += h // commutative
+		}
+	}
+	t.hash = h
+	t.nevents++
+}
+
+// point parks the running thread with a pending operation until scheduled.
+//
+//go:norace
+func point(o *op) *op {
+	id := s.cur
+	t := &s.threads[id]
+	t.op = *o
+	t.state = tPending
+	schedule()
+	waitTurn(int32(id))
+	return &t.op
+}
+
+// event records an operation that needs no scheduling point (releases, responses).
+//
+//go:norace
+func event(o *op) {
+	t := &s.threads[s.cur]
+	s.step++
+	record(t, o)
+}
+
+// ---------------------------------------------------------------- operations
+
+//go:norace
+func Visible(k Kind, a ...Acc) {
+	var o op
+	o.kind = k
+	for i := 0; i < len(a) && i < maxAcc; i++ {
+		o.accs[i] = a[i]
+		o.nacc++
+	}
+	point(&o)
+}
+
+//go:norace
+func MutexLock(p unsafe.Pointer) {
+	o := op{kind: KLock, obj: ptr(p), nacc: 1}
+	o.accs[0] = Acc{Obj: ptr(p), W: true}
+	findObj(ptr(p), oMutex)
+	point(&o)
+}
+
+//go:norace
+func MutexUnlock(p unsafe.Pointer) {
+	findObj(ptr(p), oMutex).held = false
+	o := op{kind: KUnlock, obj: ptr(p), nacc: 1}
+	o.accs[0] = Acc{Obj: ptr(p), W: true}
+	event(&o)
+}
+
+//go:norace
+func RWLock(p unsafe.Pointer) {
+	findObj(ptr(p), oRW)
+	o := op{kind: KLock, sub: subLockReq, obj: ptr(p), nacc: 1}
+	o.accs[0] = Acc{Obj: ptr(p), W: true}
+	point(&o)
+	o2 := op{kind: KLock, sub: subLockAcq, obj: ptr(p), nacc: 1}
+	o2.accs[0] = Acc{Obj: ptr(p), W: true}
+	point(&o2)
+}
+
+//go:norace
+func RWUnlock(p unsafe.Pointer) {
+	findObj(ptr(p), oRW).held = false
+	o := op{kind: KUnlock, obj: ptr(p), nacc: 1}
+	o.accs[0] = Acc{Obj: ptr(p), W: true}
+	event(&o)
+}
+
+//go:norace
+func RWRLock(p unsafe.Pointer) {
+	findObj(ptr(p), oRW)
+	o := op{kind: KRLock, obj: ptr(p), nacc: 1}
+	o.accs[0] = Acc{Obj: ptr(p), W: false}
+	point(&o)
+}
+
+//go:norace
+func RWRUnlock(p unsafe.Pointer) {
+	ob := findObj(ptr(p), oRW)
+	if ob.readers > 0 {
+		ob.readers--
+	}
+	o := op{kind: KRUnlock, obj: ptr(p), nacc: 1}
+	o.accs[0] = Acc{Obj: ptr(p), W: false}
+	event(&o)
+}
+
+//go:norace
+func Ptr(p unsafe.Pointer) uint64 { return ptr(p) }
+
+// global pseudo-object on which invocations and responses of harness calls
+// are events: interleavings that differ in the real-time order of calls are
+// never merged.
+const globalObj = 0xC0FFEE
+
+// Call is a scheduling point taken right before call number n of the running
+// thread is invoked.
+//
+//go:norace
+func Call(n int, label string) {
+	o := op{kind: KCall, obj: uint64(n), label: label, nacc: 1}
+	o.accs[0] = Acc{Obj: globalObj, W: true}
+	point(&o)
+}
+
+// Ret records the response of call n (no scheduling point: responding as
+// early as possible is the most constraining real-time order).
+//
+//go:norace
+func Ret(n int) {
+	s.hist = append(s.hist, HistEvent{Thread: s.cur, Call: n, Ret: true, Step: s.step})
+	o := op{kind: KRet, obj: uint64(n), nacc: 1}
+	o.accs[0] = Acc{Obj: globalObj, W: true}
+	event(&o)
+}
+
+// Yield is a plain scheduling point for harness code (e.g. cancelling a context).
+//
+//go:norace
+func Yield(label string, obj uint64) {
+	o := op{kind: KUser, label: label, nacc: 1}
+	o.accs[0] = Acc{Obj: obj, W: true}
+	point(&o)
+}
+
+// ---------------------------------------------------------------- channels
+
+// ChanEnsure registers a channel with its current real state the first time
+// the execution touches it.
+//
+//go:norace
+func ChanEnsure(id uint64, clen, ccap int, closed bool) {
+	for i := 0; i < s.nobj; i++ {
+		if s.objs[i].id == id {
+			return
+		}
+	}
+	ob := findObj(id, oChan)
+	ob.clen, ob.ccap, ob.closed = clen, ccap, closed
+}
+
+// RealChanObj stands for all real Done-like channels in the happens-before
+// hashing; the harness names it when it cancels a context.
+const RealChanObj = 0xD09E
+
+//go:norace
+func ChanSend(id uint64) {
+	o := op{kind: KChan, sub: subSend, obj: id, nacc: 1}
+	o.accs[0] = Acc{Obj: id, W: true}
+	point(&o)
+}
+
+//go:norace
+func ChanRecv(id uint64) {
+	o := op{kind: KChan, sub: subRecv, obj: id, nacc: 1}
+	o.accs[0] = Acc{Obj: id, W: true}
+	point(&o)
+}
+
+//go:norace
+func ChanClose(id uint64) {
+	o := op{kind: KChan, sub: subClose, obj: id, nacc: 1}
+	o.accs[0] = Acc{Obj: id, W: true}
+	point(&o)
+}
+
+// Select parks until one of the cases is ready and returns its index. A case
+// is either a receive from a modelled channel (id != 0) or from a real
+// Done-like channel (only ever closed).
+//
+//go:norace
+func Select(ids []uint64, reals []<-chan struct{}) int {
+	var o op
+	o.kind = KSelect
+	for i := 0; i < len(ids) && i < maxSel; i++ {
+		o.sel[i] = selCase{obj: ids[i], real: reals[i]}
+		o.nsel++
+		if o.nacc < maxAcc {
+			if ids[i] != 0 {
+				o.accs[o.nacc] = Acc{Obj: ids[i], W: true}
+			} else {
+				o.accs[o.nacc] = Acc{Obj: RealChanObj, W: false}
+			}
+			o.nacc++
+		}
+	}
+	return point(&o).chosen
+}
